@@ -232,6 +232,14 @@ class Arith:
             return b
         if isinstance(a, Undefined) or isinstance(b, Undefined):
             return Guarded([(c, a), (z3.Not(c), b)])
+        if isinstance(a, SDict) and isinstance(b, SDict) and a.is_set == b.is_set:
+            nc = z3.Not(c)
+            return SDict([(z3.simplify(z3.And(c, x[0])),) + tuple(x[1:]) for x in a.log] +
+                         [(z3.simplify(z3.And(nc, x[0])),) + tuple(x[1:]) for x in b.log], a.is_set)
+        if isinstance(a, SList) and isinstance(b, SList) and a.maxlen == b.maxlen:
+            nc = z3.Not(c)
+            return SList([(z3.simplify(z3.And(c, x)), v) for x, v in a.items] +
+                         [(z3.simplify(z3.And(nc, x)), v) for x, v in b.items], a.maxlen)
         if isinstance(a, Guarded) or isinstance(b, Guarded):
             return Guarded([(c, a), (z3.Not(c), b)])
         if isinstance(a, Obj) or isinstance(b, Obj):
